@@ -371,6 +371,34 @@ PROPS["C07"] = dict(
                "stall_s seconds) kills it and re-runs that seed alone",
 )
 
+PROPS["C20"] = dict(
+    engine="netsim", level="exploration",
+    quick=dict(runs=3200, workers=16, stall_s=180),
+    thorough=dict(budget_s=900, workers=16, stall_s=300),
+    rule="one evaluation = one seeded client session against the bundled HTTP/WebSocket server, all inside one bubble over one real stack whose NIC is "
+         "the repository's loopback link (inline delivery, 64 KB MTU) or a hairpin link through the simulated wire (MTU 576 or 1500, FIFO, frames handed "
+         "up in one view or the fd-based scatter): 1-6 HTTP requests by the bundled client (GET/HEAD/POST/PUT; registered and unregistered paths; 0-3 "
+         "headers; bodies of 0-300 bytes in the grammar the parser accepts, i.e. without ': '; every message below one MSS), then 1-8 text messages over "
+         "the bundled WebSocket client (unmasked) and, in half of the runs, 1-8 more from a harness-side RFC 6455 client with masked frames and random, "
+         "all-zero and all-ones keys; message lengths 0, 1, 124-128, 1000, 65534-65537, uniform < 3000 and up to 300 KB; the server answers each message "
+         "with its reversal, so both directions carry distinguishable bytes; closed loop, client first. non-trivial = at least one request or message "
+         "completed; distinct = distinct hash of the session's semantic events (methods, paths, message lengths)",
+    expected_probes=["http_requests", "unregistered_path_requests", "ws_messages_bundled_client", "ws_messages_masked_raw_client", "raw_upgrades",
+                     "ws_len_7bit", "ws_len_16bit", "ws_len_64bit"],
+    real=NET_REAL + ["protocol/application/http", "protocol/application/websocket", "protocol/transport/tcp/client", "protocol/link/loopback", "internal/socket"],
+    stubs=NET_STUBS + ["stack/stackinit: no TAP device and no host-interface probing under tag verif; the harness builds stack.Pstack itself"],
+    assumptions=NET_ASSUME + [
+        "the property does not quantify over schedules or fault sequences: wire faults and yield perturbation are off",
+        "the client's API exposes the response body but no status code; the status clause is not observable through it and is not asserted",
+        "frame bytes of the hairpin link are left out of the event-log hash (the bundled client emits headers in map-iteration order)"],
+    hang_is_violation=True,
+    level_text="seeded search over request/message histories and two link configurations with the real TCP underneath: the handler registered for the "
+               "path sees the method, every header and the body that were sent, exactly once; an unregistered path invokes no handler; the client "
+               "receives the body the handler produced; Sec-WebSocket-Accept equals base64(SHA-1(key + RFC 6455 GUID)) computed independently; every text "
+               "message arrives byte-identical and in order in both directions; server frames use the shortest length form; evidence, not proof",
+    level_note="the HTTP mux is a process global that panics on re-registration: handlers are registered once per worker process and forward to the current run",
+)
+
 PENDING = "check not built yet (work in progress; will be claimed once its simulation exists)"
 NOT_APPLICABLE = {
     "C15": "pure functions of their input (header codecs, RFC 1071 checksum): no schedule, clock, fault, I/O or second party for a simulator to control; "
